@@ -188,7 +188,8 @@ class YosysBehavioralRTLIRToVVisitorL1( BehavioralRTLIRToVVisitorL1 ):
         node.sexpr['s_attr'] = f"{nbits}'d{value}"
         node.sexpr['s_index'] = ""
       elif is_bitstruct_inst( obj ):
-        node.sexpr['s_attr'] = s._struct_instance( node.Type.get_dtype(), obj )
+        # (s_attr is a format template: keep the braces of the literal)
+        node.sexpr['s_attr'] = s._struct_instance( node.Type.get_dtype(), obj ).replace( "{", "{{" ).replace( "}", "}}" )
         node.sexpr['s_index'] = ""
       else:
         raise VerilogTranslationError( s.blk, node,
